@@ -37,7 +37,7 @@ Fail(k, n, c) == [ja |-> k, n |-> n, c |-> c]
 \* and equal the marginal of the logged joint row (each logged value is off by at most one unit).
 JointMass(row, i, c) == LET sel == SelectSeq(row, LAMBDA o : o.n[i] = c) IN SatSum(sel, Len(sel))
 MargFails(k, row, mm) ==
-  IF Len(row) = 0 THEN {}                       \* no distribution at all: the "sum" clause reports it
+  IF Len(row) = 0 \/ Len(mm) = 0 THEN {}        \* no distribution at all (the "sum" clause reports it) / not recorded
   ELSE UNION {
          (IF SumOK(mm[i]) THEN {} ELSE {Fail(k, T, "marginal-sum")})
          \cup {Fail(k, <<mm[i][j].c, mm[i][j].c>>, "marginal") : j \in
@@ -54,6 +54,9 @@ Judge(LL, ev) ==
                  \cup (IF ev.s = T /\ ev.rows[k][o].r # <<0, 0>> THEN {Fail(k, ev.rows[k][o].n, "terminal-pays")} ELSE {})
                  \cup (IF LL.capped = 0 /\ ev.rows[k][o].n \notin Range(LL.states) THEN {Fail(k, ev.rows[k][o].n, "closure")} ELSE {})
                  \cup (IF ev.rows[k][o].q <= 0 THEN {Fail(k, ev.rows[k][o].n, "malformed")} ELSE {})
+                 \* normalize() of the returned table: the row weight exp(logit) of the normalised table is the
+                 \* probability of the row (both logged in units of 1/Q, each off by at most one unit)
+                 \cup (IF AbsI(ev.rows[k][o].z - ev.rows[k][o].q) > 2 THEN {Fail(k, ev.rows[k][o].n, "normalize")} ELSE {})
                : o \in 1..Len(ev.rows[k]) }
     : k \in 1..25 }
 
@@ -74,8 +77,13 @@ Expand ==
 Cover ==
   /\ phase = "event" /\ Tr.kind = "cover" /\ phase' = "judged"
   /\ bad' = (IF L.capped = 1 \/ (Range(Tr.expanded) = Range(L.states) /\ Len(Tr.expanded) = Len(L.states)
-                                 /\ L.init \in Range(L.states))
-             THEN {} ELSE {Fail(0, L.init, "closure")})
+                                 /\ Tr.s \in Range(L.states))       \* Tr.s: the recorded initial state
+             THEN {} ELSE {Fail(0, Tr.s, "closure")})
+            \* the library's reachable_states() (Tr.lib, when it returned) contains the initial state and is closed
+            \* under the recorded positive-probability outcomes, i.e. it contains the whole recorded closure
+            \cup (IF Tr.haslib = 1 /\ L.capped = 0
+                  THEN {Fail(0, s, "reachable-states-not-closed") : s \in Range(L.states) \ Range(Tr.lib)}
+                  ELSE {})
   /\ UNCHANGED <<lid, pos, ja, tab, tid>>
 TraceNext == Expand \/ Cover
 TraceSpec == TraceInit /\ [][TraceNext]_tvars
@@ -99,6 +107,11 @@ TrTerminalAbsorbing == ~Has("terminal-not-absorbing") /\ ~Has("terminal-pays")
 \* every per-agent marginal of a returned distribution is itself a normalised distribution and is the
 \* marginal of the joint one
 TrMarginal          == ~Has("marginal") /\ ~Has("marginal-sum")
+\* normalize() of a returned distribution has row weights equal to the probabilities
+TrNormalize         == ~Has("normalize")
+\* "every reachable state": the library's own reachable_states() lacks no state that the recorded behaviour
+\* reaches with positive probability
+TrReachableClosed   == ~Has("reachable-states-not-closed")
 \* the recorded state set really is closed and well formed (a failure here is the harness's fault)
 TrClosed            == ~Has("closure") /\ ~Has("malformed")
 =============================================================================
